@@ -40,6 +40,9 @@ func (c *checkCtx) recordTraces(fam, casesFile string, o replayOpts, initLine fu
 }
 
 func (c *checkCtx) recordTracesWith(fam, casesFile string, o replayOpts, initLine func(cs map[string]J) map[string]J, each func(i int, r map[string]J)) []*rtrace {
+	if !c.confirming {
+		c.lastRecord = &recordParams{fam: fam, o: o, initLine: initLine, fromResult: each != nil}
+	}
 	cases, results := c.replay(fam, casesFile, o)
 	if c.discarded == nil {
 		c.discarded = map[string]int{}
@@ -238,6 +241,14 @@ func (c *checkCtx) validateTraces(fam, module, cfg string, traces []*rtrace, o t
 					}
 				}
 				t := batch[bad]
+				if c.notReproduced(t, module, cfg, o) {
+					mu.Lock()
+					c.validated += bad
+					c.discarded["rejected trace not reproduced when the case was recorded again alone with 10x watchdogs (not judged)"]++
+					mu.Unlock()
+					batch = batch[bad+1:]
+					continue
+				}
 				off := rejectedAt - starts[bad]
 				line := "(end of trace)"
 				if off < len(t.lines) {
@@ -264,6 +275,99 @@ func (c *checkCtx) validateTraces(fam, module, cfg string, traces []*rtrace, o t
 		panic(firstInfra)
 	}
 }
+
+type recordParams struct {
+	fam        string
+	o          replayOpts
+	initLine   func(cs map[string]J) map[string]J
+	fromResult bool
+}
+
+// notReproduced records the case of a rejected trace again - alone, with the harness watchdogs ten times longer - and has TLC
+// validate the new trace: a rejection that does not show again (a stall of a loaded machine recorded as a hang, a truncated
+// recording) is no verdict. Only the first rejections are confirmed this way.
+func (c *checkCtx) notReproduced(t *rtrace, module, cfg string, o traceOpts) bool {
+	confirmMu.Lock()
+	defer confirmMu.Unlock()
+	if c.lastRecord == nil || c.confirmed >= 12 || c.confirming {
+		return false
+	}
+	c.confirming = true
+	defer func() { c.confirming = false }()
+	c.confirmSeq++
+	cf := filepath.Join(c.work, fmt.Sprintf("confirmtrace%d.ndjson", c.confirmSeq))
+	cb, _ := json.Marshal(t.cs)
+	_ = os.WriteFile(cf, append(cb, '\n'), 0o644)
+	lr := c.lastRecord
+	ro := lr.o
+	ro.every, ro.workers = 0, 1
+	if ro.timeout == 0 {
+		ro.timeout = 20 * time.Second
+	}
+	ro.timeout *= 10
+	ro.opts = map[string]string{"slow": "10"}
+	for k, v := range lr.o.opts {
+		ro.opts[k] = v
+	}
+	// (no shared counters are touched here: other batches are being validated at the same time)
+	cases, results := c.replay(lr.fam, cf, ro)
+	if len(results) != 1 {
+		return false
+	}
+	r := results[0]
+	if st, _ := r["status"].(string); st != "recorded" {
+		return st == "discard" // crash / hang / mismatch again: reproduced; discarded by the recorder this time: not reproduced
+	}
+	init := map[string]J{}
+	if lr.fromResult {
+		init["size"], init["base"] = 0, 0
+		if m, ok := r["init"].(map[string]J); ok {
+			for k, v := range m {
+				init[k] = v
+			}
+		}
+	} else {
+		init = lr.initLine(cases[0])
+	}
+	init["ev"] = "init"
+	ib, _ := json.Marshal(init)
+	again := []*rtrace{{lines: [][]byte{ib}}}
+	evs, _ := r["events"].([]J)
+	for _, e := range evs {
+		eb, _ := json.Marshal(e)
+		again[0].lines = append(again[0].lines, eb)
+	}
+	file := filepath.Join(c.work, fmt.Sprintf("confirmtrace%d.trace.ndjson", c.confirmSeq))
+	f, _ := os.Create(file)
+	for _, l := range again[0].lines {
+		f.Write(l)
+		f.Write([]byte("\n"))
+	}
+	f.Close()
+	env := map[string]string{"TRACE": file}
+	for k, v := range o.env {
+		env[k] = v
+	}
+	res := c.tlc(module, cfg, tlcOpts{workers: 1, env: env, timeout: 10 * time.Minute, deque: o.deque, expectViolation: true, timeoutOK: true})
+	for _, p := range res.prints {
+		if reRejected.MatchString(p) {
+			c.confirmed++
+			return false // rejected again: reproduced
+		}
+	}
+	return !res.timedOut && len(res.errors) == 0 || onlyPostcondition(res.errors)
+}
+
+func onlyPostcondition(errs []string) bool {
+	for _, e := range errs {
+		if !strings.Contains(e, "postcondition") && !strings.Contains(e, "Postcondition") {
+			return false
+		}
+	}
+	return true
+}
+
+var confirmMu sync.Mutex
 
 // bindingSelfTest demonstrates that the trace specification really constrains the recorded fields: a copy of some
 // accepted traces with one field of one event corrupted (an atom of a call goal or of an answer renamed) or with one
